@@ -96,6 +96,8 @@ def perturb_strategy(ctx):
         # whole programs (C01's structured generator): every lowering path, where a compiler-internal address or an
         # uninitialised field can leak into an operand of the output
         st.fixed_dictionaries({"kind": st.just("prog"), "case": _prog_cases()}),
+        # C19's hand-written edge units: almost all end in a diagnostic, whose text is part of the output
+        st.fixed_dictionaries({"kind": st.just("edge"), "i": st.integers(0, 100000)}),
     )
     return st.fixed_dictionaries({"input": inp, "t": st.integers(0, 2), "E": st.booleans(),
                                   "perts": st.lists(pert, min_size=2, max_size=4)})
@@ -200,6 +202,9 @@ def _input_bytes(inp, ctx):
         if inp["wrap"] == "lines":
             return ("\n".join(t[i:i + 7] for i in range(0, len(t), 7)) + "\n").encode("utf-8", "surrogateescape"), "text.c"
         return (t + "\n").encode("utf-8", "surrogateescape"), "text.c"
+    if k == "edge":
+        from . import c19
+        return (c19.EDGES[inp["i"] % len(c19.EDGES)] + "\n").encode("utf-8", "surrogateescape"), "edge.c"
     if k == "prog":
         return inp["case"]["src"].encode(), "prog.c"
     if k == "macros":
